@@ -269,6 +269,41 @@ func (c *Ctx) ruleE5() {
 			for _, s := range sends {
 				gs[s.g] = true
 			}
+			// lossless clause: a send on the delivery channel may only be abandoned because the
+			// subscription ended (a done-style signal), never because nobody was receiving at that
+			// moment (default arm) or because time ran out (an arm receiving a time.Time)
+			for _, s := range sends {
+				sel, ok := s.in.(*ssa.Select)
+				if !ok {
+					continue
+				}
+				// a channel of empty structs carries wake-up signals, which may be coalesced (rule E6)
+				if ct, ok := mk.Type().Underlying().(*types.Chan); ok {
+					if st, ok := ct.Elem().Underlying().(*types.Struct); ok && st.NumFields() == 0 {
+						continue
+					}
+				}
+				lc := fnKey(f) + "#delivery-send-abandoned-only-when-ended"
+				why := ""
+				if !sel.Blocking {
+					why = "the select sending the event on the subscriber's delivery channel has a default arm: an event already taken from the queue is dropped whenever the subscriber is not receiving at that very moment (and the channel buffer is full)"
+				}
+				for _, st := range sel.States {
+					if st.Dir != types.RecvOnly {
+						continue
+					}
+					if ch, ok := st.Chan.Type().Underlying().(*types.Chan); ok {
+						if nt, ok := ch.Elem().(*types.Named); ok && nt.Obj().Pkg() != nil && nt.Obj().Pkg().Path() == "time" && nt.Obj().Name() == "Time" {
+							why = "the select sending the event on the subscriber's delivery channel has a time-out arm: an event already taken from the queue is given up (and with it whatever is still queued) when a live subscriber is merely slow — delivery is no longer lossless"
+						}
+					}
+				}
+				if why != "" {
+					c.bad("E5", lc, s.pos, why)
+				} else {
+					c.ok("E5", lc, s.pos, "the send on the delivery channel competes only with done-style signals (no default arm, no time-out arm)")
+				}
+			}
 			cons := fnKey(f) + "#delivery-channel-senders"
 			if len(gs) <= 1 {
 				c.ok("E5", cons, mk.Pos(), fmt.Sprintf("all %d send(s) on the delivery channel are in one goroutine: order of sends is program order", len(sends)))
